@@ -304,13 +304,33 @@ func (p *Program) lockDiscipline(pkgShort, typeName string, fields []string, loc
 		ok := holds[fn]
 		why := "takes the mutex in its entry block with a deferred unlock"
 		if !ok {
-			// all callers hold it (closures: their parent)
+			// all callers hold it (closures: their parent), directly or through their own callers
 			callers := p.RealCallers(fn)
+			var covered func(f *ssa.Function, d int, seen map[*ssa.Function]bool) bool
+			covered = func(f *ssa.Function, d int, seen map[*ssa.Function]bool) bool {
+				if holds[f] {
+					return true
+				}
+				if d > 4 || seen[f] {
+					return false
+				}
+				seen[f] = true
+				cs := p.RealCallers(f)
+				if len(cs) == 0 {
+					return false
+				}
+				for _, c := range cs {
+					if !covered(c, d+1, seen) {
+						return false
+					}
+				}
+				return true
+			}
 			all := len(callers) > 0
 			var names []string
 			for _, c := range callers {
 				names = append(names, FnName(c))
-				if !holds[c] {
+				if !covered(c, 0, map[*ssa.Function]bool{fn: true}) {
 					all = false
 				}
 			}
